@@ -59,7 +59,7 @@ AccInit == [bad |-> {},          \* <<phase, op>> : the API answered badly (5xx 
 Init == /\ t \in 1..Len(Runs) /\ l = 1 /\ mon = MonInit /\ acc = AccInit /\ why = ""
 
 IsUnit(ph) == ph \in {2, 3, 4}
-RateJitter == (Hdr.rateW * 2) \div 5       \* scheduling jitter allowance for the rate-limit clause (timing, not logic)
+RateJitter == (Hdr.rateW * 3) \div 5       \* scheduling jitter allowance for the rate-limit clause (timing, not logic; generous: arrival times are taken by a loaded server thread)
 CountThr(S, thr) == Cardinality({x \in S : x[1] = thr})
 
 Step ==
